@@ -11,13 +11,13 @@ ASSUMPTIONS = ["the DATA reader is exercised as a component (dataReader.Read ove
 RULE = ("dr probe: (a) exhaustive transition table 6 states x 256 octets x 16 continuations with 1-octet reads; "
         "(b) every stream over {'.',CR,LF,'a'} up to the tier's length, terminated by CRLF.CRLF + bait and unterminated, "
         "under read schedules {one big read, 1, 2, 3, 7, mixed} and segmentations; (c) seeded random 256-valued streams. "
-        "non-trivial = the stream has more than one octet and contains '.', CR or LF; distinct = distinct case line")
+        "conv probe: 1-3 messages per connection through DATA (lines with dots, lone CR/LF, NUL/8-bit, bait), SMTP/LMTP, backend read sizes, segmentations; every delivery must have read exactly the specified octets. non-trivial = the stream has more than one octet and contains '.', CR or LF; distinct = distinct case line")
 THEOREMS = ["C01_exact", "C01_sched_indep", "C01_transparent", "C01_monitor", "terminated?_iff"]
 
-nontrivial = lambda case, ans: dc.nontrivial_stream(case)
-signature = dc.signature
-mutate = dc.mutate
-shrink = dc.shrink
+nontrivial = lambda case, ans: dc.nontrivial_stream(case) if case.startswith("dr") else True
+signature = lambda case, ans: dc.signature(case, ans) if case.startswith("dr") else "conv/" + str(case.count("444154410d0a"))
+mutate = lambda case, rng: dc.mutate(case, rng) if case.startswith("dr") else []
+shrink = lambda case: dc.shrink(case) if case.startswith("dr") else []
 KNOWN = {}
 
 
@@ -40,7 +40,46 @@ def groups(tier, rng):
                               rng.choice(["eof", "eof", "err"])))
     return [Group("dr/step-table", table, exhaustive=True, theorems=THEOREMS),
             Group("dr/enumerated", enum, theorems=THEOREMS),
-            Group("dr/random", rnd, theorems=THEOREMS)]
+            Group("dr/random", rnd, theorems=THEOREMS),
+            Group("conv/data-in-connection", conv_cases(tier, rng), theorems=THEOREMS,
+                  project=lambda case, ans: cc.project(ans, codes="exact", enh=False, drecs="full"))]
+
+
+from vlib.props import convprops as P, convcommon as cc
+from vlib import convgen as g
+from vlib.gen import hx
+
+LINES = [b"plain", b".", b"..", b".x", b"..x", b"a\rb", b"a\nb", b"\r", b".\r", b"\n.\n", b"", b"\x00\xff", b"MAIL FROM:<bait@x>", b"x" * 70]
+
+
+def unstuff_spec(lines):
+    """the specification, line by line: one leading dot removed (the generator keeps the end marker out of `lines`)"""
+    return b"".join((l[1:] if l.startswith(b".") else l) + b"\r\n" for l in lines)
+
+
+def conv_cases(tier, rng):
+    """the reader as the server uses it: first, second and third message of a connection, SMTP and LMTP, backend read sizes,
+    segmentations; the octets each delivery must have read are handed to the judge"""
+    cases = []
+    n = 400 if tier == "quick" else 6000
+    for _ in range(n):
+        lm = rng.random() < 0.3
+        ls = lm and rng.random() < 0.5
+        c = g.Conv(dict(lmtp=int(lm), lmtpsess=int(ls)))
+        c.add((b"LHLO" if lm else b"EHLO") + b" cli.example\r\n", NS="ok")
+        expect = []
+        for k in range(rng.choice([1, 2, 2, 3])):
+            c.add(b"MAIL FROM:<s%d@x.org>\r\n" % k, MAIL="ok"); c.add(b"RCPT TO:<r@x.org>\r\n", RCPT="ok")
+            lines = [rng.choice(LINES) for _ in range(rng.randrange(0, 5))]
+            lines = [l for l in lines if l != b"."]          # (a lone dot line would be the end marker)
+            c.add(b"DATA\r\n")
+            c.add(b"".join(l + b"\r\n" for l in lines) + b".\r\n", DATA=g.ddec(rsz=rng.choice([1, 2, 3, 7, 4096])))
+            expect.append("%d:%s" % (k, hx(unstuff_spec(lines))))
+            if rng.random() < 0.3:
+                c.add(b"RSET\r\n")
+        P.markers(c, 1)
+        cases.append(c.case(seg=rng.choice(["one", "line", "byte", "rand"]), rng=rng) + "\tEXPECT=" + ";".join(expect))
+    return cases
 
 
 def replay_groups(path):
